@@ -82,7 +82,8 @@ def build(cfg, upto=None):
         sb.memory_map = MemoryMap(addr_width=sc["aw"], data_width=cfg["dw"])
         if sc.get("align_to") is not None:
             dec.align_to(sc["align_to"])
-        dec.add(sb, name=sc["name"], addr=sc["addr"])
+        from amaranth.lib.wiring import flipped as _fl
+        dec.add(_fl(sb) if i % 3 == 2 else sb, name=sc["name"], addr=sc["addr"])        # a flipped interface is accepted as well
         subs.append(sb)
     def refused_add(dec, k):
         """an add() the decoder must refuse (window larger than the decoder's space / other data width): afterwards the
